@@ -132,7 +132,7 @@ Proof.
   - cbn [app]. cbn -[legal opt_noreply nr_toks sdec in_range Z.pow Z.opp].
     rewrite opt_noreply_nr, sdec_str, in_range_ok, H by lia. reflexivity.
   - cbn [app]. cbn -[opt_noreply nr_toks udec in_range Z.pow].
-    rewrite opt_noreply_nr, udec_str, in_range_ok by lia. reflexivity.
+    rewrite opt_noreply_nr, udec_str by lia. reflexivity.
   - reflexivity.
 Qed.
 
@@ -361,7 +361,7 @@ Proof.
   - apply parse_render. cbn. rewrite (check_key_legal _ _ _ Hk). first [specialize (Hr z Ez) | specialize (Hr z eq_refl)]. lia.
 Qed.
 Theorem flush_wellformed delay nr db :
-  check_integer c delay = Ok db -> (forall z, int_value delay = Some z -> 0 <= z < 2 ^ 63) ->
+  check_integer c delay = Ok db -> (forall z, int_value delay = Some z -> 0 <= z) ->
   exists z, int_value delay = Some z /\
     L_flush_all_sp ++ db ++ nr_sfx nr ++ L_crlf = render (CFlush z nr) /\ parse (render_all [CFlush z nr]) = Some [CFlush z nr].
 Proof.
